@@ -27,3 +27,15 @@ Definition mh_prop_seed (s i : N) : N := wrap (1 + s + i + HALF).
 
 Definition prop_seeds_eval (s : N) (n : nat) : list Z :=
   map (fun i => Z.of_N (mh_prop_seed s (N.of_nat i))) (seq 0 n).
+
+(* evaluation entry point of C07/C08: for seed s, n chains, k outputs per generator:
+   MH acceptance generators' first k outputs, Gibbs seeds, Gibbs generators' outputs,
+   NUTS seeds, MH proposal seeds, and the reference outputs of seed_from_u64 s *)
+Definition c07_eval (s : N) (n k : nat) : list Z :=
+  let idx := map N.of_nat (seq 0 n) in
+  concat (map (fun i => map Z.of_N (outputs k (seed_from_u64 (mh_seed s i)))) idx)
+  ++ map (fun i => Z.of_N (gibbs_seed s i)) idx
+  ++ concat (map (fun i => map Z.of_N (outputs k (seed_from_u64 (gibbs_seed s i)))) idx)
+  ++ map (fun i => Z.of_N (nuts_seed s i)) idx
+  ++ map (fun i => Z.of_N (mh_prop_seed s i)) idx
+  ++ map Z.of_N (outputs k (seed_from_u64 s)).
